@@ -37,3 +37,28 @@ Print Assumptions C07_zero_weight_never_inserted_heatbath.
 Theorem C07_spin_flips_keep_bond_positions : forall sl st b flips, skeleton (fst (apply_flips sl st b flips)) = skeleton sl.
 Proof. exact apply_flips_skeleton. Qed.
 Print Assumptions C07_spin_flips_keep_bond_positions.
+
+(* ---- spin-flip updates keep positivity / legality ---- *)
+From QmcV Require Import Model.ClusterValid Model.Loop Model.Ham Proofs.ClusterFlipProofs Proofs.LegalityProofs.
+
+(* a directed-loop update started from a string of positive-weight operators stores an operator
+   of non-positive weight with probability exactly 0 (any Hamiltonian with non-negative weights,
+   any start, any fuel) *)
+Theorem C07_loop_never_stores_nonpositive : forall (H : ham) fuel sl st,
+  nonneg_ham H -> all_positive H sl = true ->
+  (mass (bad H) (denote (loop_update fuel H sl st)) == 0)%Q.
+Proof. exact loop_update_positive. Qed.
+Print Assumptions C07_loop_never_stores_nonpositive.
+
+Theorem C07_generic_weights_nonneg : forall bonds : list interaction,
+  (forall i, In i bonds -> Forall (fun q => 0 <= q)%Q (it_mat i)) -> nonneg_ham (qmc_ham bonds).
+Proof. exact qmc_ham_nonneg. Qed.
+Print Assumptions C07_generic_weights_nonneg.
+
+(* a cluster flip (validated labelling, symmetric non-edge operators or unflipped clusters) keeps
+   every stored operator legal: bond, variables, constant flag, arities and strictly positive weight *)
+Theorem C07_cluster_flip_keeps_legality : forall H sl st b flips,
+  sides_ok sl b = true -> weight_hyp H flips sl b -> all_legal H sl = true ->
+  all_legal H (fst (apply_flips sl st b flips)) = true.
+Proof. exact cluster_flip_legal. Qed.
+Print Assumptions C07_cluster_flip_keeps_legality.
